@@ -3,3 +3,4 @@
 import sim.bytechan  # noqa: F401
 import sim.clichan  # noqa: F401
 import sim.unitchan  # noqa: F401
+import sim.fsched  # noqa: F401
